@@ -16,5 +16,6 @@ for p in "$@"; do
   out=$(VERIF_REPO="$scratch" VERIF_EVIDENCE_DIR="$scratch/.evidence" /verif/check "$p" "$tier" 2>&1)
   code=$?
   echo "SEEDTEST $p $tier: exit=$code $(echo "$out" | grep -E "^$p " | tail -1 | cut -c1-160)"
-  echo "$out" | grep -E "by clause|^  case|^  data race" | head -4 | cut -c1-260
+  echo "$out" | grep -E "by clause" | head -1 | cut -c1-300
+  echo "$out" | grep -E "^  case|^  data race" | head -3 | cut -c1-260
 done
